@@ -150,7 +150,9 @@ def cleanup_semaphores(t0):
             if f.startswith('sem.mp-'):
                 p = os.path.join('/dev/shm', f)
                 try:
-                    if os.stat(p).st_mtime >= t0 - 1:
+                    # only leaked ones: a live Python process unlinks its semaphore microseconds after creating it, and a
+                    # concurrently running check must not lose one in that window (seen once as a false build failure)
+                    if t0 - 1 <= os.stat(p).st_mtime < time.time() - 20:
                         os.unlink(p); n += 1
                 except OSError:
                     pass
